@@ -282,7 +282,21 @@ def legacy_trait(cfg):
     raise MachineryError("legacy trait " + t)
 
 
+def has_lazy_name(cfg):
+    return bool(cfg.get("nm")) or any(has_lazy_name(m) for m in cfg["ms"])
+
+
 def holder(cfg, via=None, shape=None):
+    if has_lazy_name(cfg) and via is None:
+        # a class name that is resolved on first use: every case gets a FRESH class and trait (what the first use does
+        # to the trait - and to later uses - is part of the case, not an accident of the order of the cases)
+        w = world()
+        key = json.dumps(cfg, sort_keys=True) + "|" + str(via) + "|" + str(shape)
+        w["classes"].pop(key, None)
+    return _holder(cfg, via, shape)
+
+
+def _holder(cfg, via=None, shape=None):
     """via: None | "pickle" | "deepcopy": the trait DEFINITION object (CTrait) is round-tripped first (C14)
     shape: None: the trait is the class attribute x itself; "proto": x = PrototypedFrom("parent") where parent.x is the
     trait (the assigned value is validated by the prototype's trait and stored on the object itself); "prop": x =
